@@ -125,9 +125,10 @@ def suiteConsumers (kvs : List (String × String)) (lines : List (String × Stri
   let pn := if kvNat kvs "pn" 6 == 0 then 6 else kvNat kvs "pn" 6
   let pdur := if kvInt kvs "pdur" 60000000000 == 0 then 60000000000 else kvInt kvs "pdur" 60000000000
   let psize := if kvNat kvs "psize" 100 == 0 then 100 else kvNat kvs "psize" 100
+  let sloV := if kvInt kvs "slo" 250000000 == 0 then 250000000 else kvInt kvs "slo" 250000000   -- unset on every layer: 250 ms
   let all : All := { run := RunStats.new n dur pn pdur psize,
-                     fb := FbStats.new n dur, slo := { maxHealthy := kvInt kvs "slo" 250000000 } }
+                     fb := FbStats.new n dur, slo := { maxHealthy := sloV } }
   let c : Circ OState CState := { cfg := parseCfg kvs {}, opener := .never, closer := .never }
-  (runConsOps n (tdiv dur n) (kvInt kvs "slo" 250000000) { c := c, all := all, noFb := kvGet kvs "coll" == some "run" } {} false lines #[]).toList
+  (runConsOps n (tdiv dur n) sloV { c := c, all := all, noFb := kvGet kvs "coll" == some "run" } {} false lines #[]).toList
 
 end CM
